@@ -334,13 +334,13 @@ OT_DEVIATIONS = {"ot-p-end-parent-unchecked": dev_p_parent, "ot-p-end-dialog-dat
                  "ot-body-start-before-meta-link-template": dev_body_meta}
 
 
-def _tree_edit(tree, fn):
+def _tree_edit(tree, fn, o):
     t = copy.deepcopy(tree)
     hit = [0]
 
     def rec(nd):
         if nd["k"] == "elem":
-            if fn(nd):
+            if fn(nd, o):
                 hit[0] += 1
         for c in nd["c"]:
             rec(c)
@@ -348,7 +348,14 @@ def _tree_edit(tree, fn):
     return t, hit[0]
 
 
-def neut_pre_lf(nd):
+def _unquoted(v, o):
+    """would the serializer write this attribute value without quotes under o (per the documented modes)"""
+    if o["quote_attr_values"] == "always" or v == "":
+        return False
+    return True          # legacy / spec: decided by the serializer's own tables; a superset is enough for a trigger
+
+
+def neut_pre_lf(nd, o):
     """pre/textarea/listing whose text starts with LF: put an 'x' in front (the construct is gone, everything else stays)"""
     if nd["ns"] == "html" and dec(nd["n"]) in LF_DROPPERS and nd["c"] and nd["c"][0]["k"] == "text" and nd["c"][0]["d"][:1] == [10]:
         nd["c"][0]["d"] = [120] + nd["c"][0]["d"]
@@ -356,7 +363,8 @@ def neut_pre_lf(nd):
     return False
 
 
-def neut_attr_prefix(nd):
+def neut_attr_prefix(nd, o):
+    """foreign element with a namespaced attribute: drop that attribute"""
     keep = [a for a in nd["a"] if a[0] == ""]
     if len(keep) != len(nd["a"]):
         nd["a"] = keep
@@ -364,21 +372,29 @@ def neut_attr_prefix(nd):
     return False
 
 
-def neut_raw_nonascii(nd):
-    """raw-text element holding a character outside ASCII: replace those characters by 'x'"""
-    if nd["ns"] == "html" and dec(nd["n"]) in RAW:
+def _encodable(c, encoding):
+    try:
+        chr(c).encode(encoding)
+        return True
+    except UnicodeEncodeError:
+        return False
+
+
+def neut_raw_unencodable(nd, o):
+    """raw-text element holding a character the output encoding cannot express: replace those characters by 'x'"""
+    if nd["ns"] == "html" and dec(nd["n"]) in RAW and o["encoding"]:
         hit = False
         for c in nd["c"]:
-            if c["k"] == "text" and any(x > 127 for x in c["d"]):
-                c["d"] = [x if x <= 127 else 120 for x in c["d"]]
+            if c["k"] == "text" and any(not _encodable(x, o["encoding"]) for x in c["d"]):
+                c["d"] = [x if _encodable(x, o["encoding"]) else 120 for x in c["d"]]
                 hit = True
         return hit
     return False
 
 
-def neut_raw_markup(nd):
-    """raw-text element whose text holds & < >: replace them by 'x'"""
-    if nd["ns"] == "html" and dec(nd["n"]) in RAW:
+def neut_raw_markup(nd, o):
+    """raw-text element whose text holds & < > while escape_rcdata is on: replace them by 'x'"""
+    if nd["ns"] == "html" and dec(nd["n"]) in RAW and o["escape_rcdata"]:
         hit = False
         for c in nd["c"]:
             if c["k"] == "text" and any(x in (38, 60, 62) for x in c["d"]):
@@ -388,14 +404,25 @@ def neut_raw_markup(nd):
     return False
 
 
-# key -> (applies to options?, tree edit or None, option edit or None)
+def neut_void_last_attr(nd, o):
+    """void element whose LAST attribute may be written unquoted while '/' follows it without a space: empty that value
+    (an empty value is always quoted), so the solidus no longer touches an unquoted value"""
+    if nd["ns"] == "html" and dec(nd["n"]) in VOID_NAMES and nd["a"] and o["use_trailing_solidus"] \
+            and not o["space_before_trailing_solidus"] and _unquoted(dec(nd["a"][-1][2]), o):
+        last = nd["a"][-1]
+        nd["a"][-1] = [last[0], last[1], []]
+        return True
+    return False
+
+
+VOID_NAMES = {"area", "base", "br", "col", "embed", "hr", "img", "input", "link", "meta", "param", "source", "track", "wbr"}
+# key -> tree edit that removes exactly the triggering construct (returns True when it was present)
 SER_DEVIATIONS = {
-    "ser-pre-leading-lf": (lambda o: True, neut_pre_lf, None),
-    "ser-attr-prefix-dropped": (lambda o: True, neut_attr_prefix, None),
-    "ser-unquoted-solidus": (lambda o: o["use_trailing_solidus"] and not o["space_before_trailing_solidus"]
-                             and o["quote_attr_values"] != "always", None, {"space_before_trailing_solidus": True}),
-    "ser-escape-rcdata-raw-text": (lambda o: o["escape_rcdata"], neut_raw_markup, None),
-    "ser-rawtext-charref": (lambda o: o["encoding"] in ("ascii", "iso-8859-1"), neut_raw_nonascii, None),
+    "ser-pre-leading-lf": neut_pre_lf,
+    "ser-attr-prefix-dropped": neut_attr_prefix,
+    "ser-unquoted-solidus": neut_void_last_attr,
+    "ser-escape-rcdata-raw-text": neut_raw_markup,
+    "ser-rawtext-charref": neut_raw_unencodable,
 }
 
 
@@ -424,23 +451,21 @@ def roundtrip_ok(tree, o, restore=()):
 
 
 def attribute_failure(tree, o, listed):
-    """for a failed (tree, options) case: the listed findings that explain it.  Every applicable listed deviation is
-    neutralised (one construct / option / token each); if the round trip then succeeds, the deviations that are NECESSARY
-    (putting only that one back makes it fail again) are returned; [] = unexplained."""
+    """for a failed (tree, options) case: the listed findings that explain it.  Every listed deviation whose triggering
+    construct is present is neutralised (serializer deviations: the one construct is edited out of the tree; optional-tag
+    deviations: the wrongly dropped tokens are put back into the stream); if the round trip then succeeds, the deviations
+    that break it on their own (only that one left active) are returned; [] = unexplained."""
     ot = [d for d in OT_DEVIATIONS if d in listed and o["omit_optional_tags"]]
-    ser = [d for d in SER_DEVIATIONS if d in listed and SER_DEVIATIONS[d][0](o)]
+    ser = [d for d in SER_DEVIATIONS if d in listed]
+    if o["alphabetical_attributes"]:
+        # attribute order matters for "last attribute": work on the tree the serializer actually sees
+        tree = norm(tree, True, False)
 
     def apply(ser_on, ot_on):
-        t, oo, hits = tree, dict(o), {}
+        t, hits = tree, {}
         for d in ser_on:
-            _, tedit, oedit = SER_DEVIATIONS[d]
-            if tedit is not None:
-                t, h = _tree_edit(t, tedit)
-                hits[d] = h
-            if oedit is not None:
-                oo.update(oedit)
-                hits[d] = 1
-        ok, restored = roundtrip_ok(t, oo, restore=ot_on)
+            t, hits[d] = _tree_edit(t, SER_DEVIATIONS[d], o)
+        ok, restored = roundtrip_ok(t, o, restore=ot_on)
         return ok, hits, restored
 
     ok, hits, restored = apply(ser, ot)
